@@ -223,10 +223,12 @@ Definition sort_by_first (l : list (Z * Z)) : list (Z * Z) :=
   fold_left (fun acc e => insert_by_first e acc) l [].
 
 (* _contains_abort_marker: next(batch) then ControlRecord.parse(key) == ABORT_MARKER;
-   None = the control batch has no record (KafkaError is raised) *)
+   a control batch without records (left behind by the log cleaner) carries no marker: False
+   (it raised KafkaError before /repo 15c7aa6 "fix: an empty control batch no longer stops a read_committed
+   consumer"; the option type and the Raise decision below are kept for that history) *)
 Definition contains_abort_marker (b : batch) : option bool :=
   match b_recs b with
-  | [] => None
+  | [] => Some false
   | r :: _ => Some (r_tag r =? ABORT_TAG)
   end.
 
